@@ -618,9 +618,10 @@ class PublicKey:
 
             # The compressed signature is of the format: recovery_id (1 byte) | r (32 bytes) | s (32 bytes)
             # We subtract the prefix(27) for uncompressed signatures and an additional 4 (31) for compressed signatures to get the recovery id
-            recovery_id = signature[0] - 31
-            if not (0 <= recovery_id <= 3): # A valid recovery ID is between 0 and 3
-                raise ValueError(f"Invalid recovery ID: expected 31-34, got {signature[0]}")
+            # Headers 27-30 (uncompressed) and 31-34 (compressed) encode the same four recovery ids
+            if not (27 <= signature[0] <= 34):
+                raise ValueError(f"Invalid recovery ID: expected 27-34, got {signature[0]}")
+            recovery_id = (signature[0] - 27) % 4
             
             signature = signature[1:] #Remove recovery id from signature
             
